@@ -66,7 +66,8 @@ RULE = ("seq: 1-9 tasks, failing position anywhere or none; pool: n_jobs in {2,3
         "values of every class, optionally narrowed to float32) whose bit patterns are part of the task's value; shm: trees of 0-6 payloads (vectors of 0-40 bytes, arrays "
         "of any layout up to 12 elements, tensors), page sizes 1/64/4096; batch: 3 scorers x recommend/score/predict, id / dict / "
         "collection test data with 1-2 key fields (with or without user_id), duplicate keys, 0-6 keys, n_jobs 1 (and 2,3 through the driver), a component failing "
-        "for one key, ratings of ordinary magnitude or scaled by 2^-135 (every rating, mean and score a subnormal single-precision number; every second pool batch); non-trivial = a pool case, or a map with >= 3 tasks, or a batch with >= 2 keys, or a tree with >= 2 payloads one of which is empty or padded, or a tree holding an array that is not C-ordered or a tensor; "
+        "for one key, the parameters of the call (module-level helper or a runner used directly; list length n in {None, 0, 1, 2, 3, 50 > catalogue, -1} by position / keyword / "
+        "not given; candidate items of the recommend invocation; output names; pipeline default length None / 1 / 4; a grid of helper / runner x every n), ratings of ordinary magnitude or scaled by 2^-135 (every rating, mean and score a subnormal single-precision number; every second pool batch); non-trivial = a pool case, or a map with >= 3 tasks, or a batch with >= 2 keys, or a tree with >= 2 payloads one of which is empty or padded, or a tree holding an array that is not C-ordered or a tensor; "
         "distinct = by hash of the case")
 
 HARNESS = os.path.dirname(os.path.dirname(os.path.abspath(__file__)))
@@ -372,11 +373,16 @@ def gen_ratings(rng):
     return rows, users, items
 
 
-def gen_batch_case(rng, n_jobs=1, rating_exp=None):
+N_VALUES = [None, 0, 1, 2, 3, 50, -1]       # not given / empty list / one / small / larger than the catalogue (<= 12 items) / negative
+
+
+def gen_batch_case(rng, n_jobs=1, rating_exp=None, params=None):
     rows, users, items = gen_ratings(rng)
     op = rng.choice(["recommend", "score", "predict"])
     ops = None
-    if rng.chance(1, 2):                      # several invocations on one runner, in every order
+    if params is not None:                    # the parameter grid: one recommend invocation
+        op = "recommend"
+    elif rng.chance(1, 2):                    # several invocations on one runner, in every order
         ops = rng.shuffle(["recommend", "score", "predict"])[: rng.randint(2, 3)]
         op = ops[0]
     scorer = rng.choice(["pop", "bias", "iknn"])
@@ -406,6 +412,28 @@ def gen_batch_case(rng, n_jobs=1, rating_exp=None):
             "pipe_n": rng.choice([None, 4]), "fail_user": None, "fail_exc": None, "ops": ops}
     # magnitude of the ratings: ordinary, or every rating / mean / score a subnormal single-precision number
     case["rating_exp"] = rng.fork("rating-exp").choice([0, 0, 0, -135]) if rating_exp is None else rating_exp
+    # the PARAMETERS of the batch call as a dimension of their own: through the module-level helper or a runner used directly, the
+    # list length over its whole range (the single-query operation with the same value is the reference, whatever it does), given by
+    # position / by keyword / not at all, candidate items as an input of the recommend invocation
+    pr = rng.fork("params")
+    case["via"] = "runner" if ops else pr.choice(["helper", "runner"])
+    case["n_kw"] = pr.chance(1, 2)
+    case["n_given"] = True
+    case["cands"] = None
+    case["pipe_n"] = pr.choice([None, 4, 1, case["pipe_n"]])
+    if ops or op == "recommend":
+        case["n"] = pr.choice(N_VALUES + [case["n"], 0])
+        if case["via"] == "runner":
+            if case["n"] is None:
+                case["n_given"] = pr.chance(1, 2)
+            if pr.chance(1, 3):
+                case["cands"] = pr.sample(items + [77], pr.randint(0, 5))
+    case["onames"] = None
+    if case["via"] == "runner" and pr.chance(1, 4):
+        case["onames"] = {o: pr.choice([None, "out-" + o, "top"]) for o in (ops or [op])[:1]}
+    if params is not None:
+        case.update(params)
+        case["fail_user"] = case["fail_exc"] = None
     if keys and "user_id" in key_fields and rng.chance(1, 4):
         case["fail_user"] = keys[rng.below(len(keys))][key_fields.index("user_id")]
         case["fail_exc"] = rng.choice(["QueryFailure", "StopIteration", "KeyError"])
@@ -426,6 +454,10 @@ def gen_cases(rng, tier):
         cases.append(gen_shm_case(rng.fork(("shm", j))))
     for j in range(60 if quick else 500):
         cases.append(gen_batch_case(rng.fork(("batch", j))))
+    # the parameter grid of the recommend helper / runner (in process): every class of list length through both entry points
+    grid = [{"via": via, "n": n, "n_given": True} for via in ("helper", "runner") for n in N_VALUES] + [{"via": "runner", "n": None, "n_given": False}]
+    for j, g in enumerate(grid * (1 if quick else 4)):
+        cases.append(gen_batch_case(rng.fork(("bparams", j)), params=g))
     only = os.environ.get("C12_KINDS")           # development aid
     if only:
         cases = [c for c in cases if c["kind"] in only.split(",") and (c["kind"] != "batch" or c["n_jobs"] == 1 or "bpool" in only)]
@@ -668,6 +700,26 @@ def _ops(case):
     return case.get("ops") or [case["op"]]
 
 
+def _oname(case, op):
+    "the output name of an invocation: the operation's default, or the `output=` given to the runner's method"
+    return (_via(case) == "runner" and (case.get("onames") or {}).get(op)) or ONAME[op]
+
+
+def _via(case):
+    return "runner" if len(_ops(case)) > 1 else (case.get("via") or "helper")
+
+
+def _param_tag(case, op):
+    "names the class of the parameters of a recommend invocation in the oracle key (nothing for the ordinary small / absent n)"
+    if op != "recommend":
+        return ""
+    n = case.get("n")
+    t = ":n=0" if n == 0 else ":n<0" if (n is not None and n < 0) else ":n>catalogue" if (n is not None and n >= 50) else ""
+    if _via(case) == "runner" and case.get("cands") is not None:
+        t += ":candidates"
+    return t
+
+
 def term_batch(case, obs):
     codes = {}
 
@@ -675,6 +727,11 @@ def term_batch(case, obs):
         return codes.setdefault(json.dumps(v, sort_keys=True), len(codes) + 1)
     kf = case["key_fields"]
     ops = _ops(case)
+    via = _via(case)
+    # the list length as a code (None given explicitly = 4000; absent = no input at all), the candidate list as one more
+    ncode = None if (via == "runner" and not case.get("n_given", True)) else 4000 if case.get("n") is None else 4002 + case["n"]
+    CANDS = 2000
+    with_cands = via == "runner" and case.get("cands") is not None
     # the pipeline as a table: (node, query, items) -> output code; items are identified by the request number
     reqs, table = [], []
     for j, k in enumerate(case["keys"]):
@@ -685,15 +742,26 @@ def term_batch(case, obs):
         for op in ops:
             sres = obs["single"][ONAME[op]][j]
             out = "(Err 3)" if (sres is not None and "error" in sres) else f"(Ok [({cstr(NODE[op])}, {cnat(code(sres))})])"
-            table.append(f"(({cstr(NODE[op])}, {copt(q, cnat)}, {copt(items_code if op != 'recommend' else None, cnat)}), {out})")
+            # the single-query operation was called with exactly these inputs: the pipeline's value is known at this point only
+            it = (items_code if op != 'recommend' else CANDS if with_cands else None)
+            table.append(f"(({cstr(NODE[op])}, {copt(q, cnat)}, {copt(it, cnat)}, {copt(ncode if op == 'recommend' else None, cnat)}), {out})")
     run_all = (f"(fun (nodes : list string) (inp : list (string * nat)) => match nodes with [nd] => "
-               f"match find (fun e => String.eqb (fst (fst (fst e))) nd && onat_eqb (snd (fst (fst e))) (alookup \"query\" inp) "
-               f"&& onat_eqb (snd (fst e)) (alookup \"items\" inp)) "
+               f"match find (fun e => String.eqb (fst (fst (fst (fst e)))) nd && onat_eqb (snd (fst (fst (fst e)))) (alookup \"query\" inp) "
+               f"&& onat_eqb (snd (fst (fst e))) (alookup \"items\" inp) && onat_eqb (snd (fst e)) (alookup \"n\" inp)) "
                f"[{'; '.join(table)}] with Some e => snd e | None => Err 9 end | _ => Err 8 end)")
     invs = []
     for op in ops:
-        extra = f"[({cstr('n')}, {cnat(4000 + (case['n'] or 0))})]" if op == "recommend" else "[]"
-        invs.append(f"(mkInv {cbool(op != 'recommend')} {extra} [({cstr(NODE[op])}, {cstr(ONAME[op])})])")
+        # the invocation the call stands for: the helper / runner.recommend(**extra) hands every parameter it was given to the pipeline
+        extra = []
+        if op == "recommend":
+            if ncode is not None:
+                extra.append(f"({cstr('n')}, {cnat(ncode)})")
+            if with_cands:
+                extra.append(f"({cstr('items')}, {cnat(CANDS)})")
+        if via == "helper":      # the request the module-level helper puts on its runner (generated helper_recommend / _score / _predict)
+            invs.append(f"(helper_inv helper_{op} {cnat(ncode if op == 'recommend' else 0)})")
+        else:
+            invs.append(f"(mkInv {cbool(op != 'recommend')} [{'; '.join(extra)}] [({cstr(NODE[op])}, {cstr(_oname(case, op))})])")
     if obs["error"]:
         want = "None"
     else:
@@ -854,19 +922,22 @@ def oracle_batch(case, obs):
         v.append((f"{tag}:spurious-error", f"batch {'+'.join(ops)} raised {obs['error']}: {obs.get('msg')}"))
         return v
     names = [name for name, _ in obs["outputs"]]
-    if names != [ONAME[op] for op in ops]:
+    if names != [_oname(case, op) for op in ops]:
         v.append((f"{tag}:outputs", f"outputs {names} for invocations {ops}"))
         return v
     for op, (name, col) in zip(ops, obs["outputs"]):
-        single = obs["single"][name]
+        single = obs["single"][ONAME[op]]
         if col["key_fields"] != case["key_fields"]:
             v.append((f"{tag}:key-fields", f"{name}: key fields {case['key_fields']} came back as {col['key_fields']}"))
         if col["keys"] != case["keys"]:
             v.append((f"{tag}:keys", f"{name}: keys {case['keys']} came back as {col['keys']} (one per input key, input order, duplicates kept)"))
         elif col["lists"] != single:
             j = next(i for i, (x, y) in enumerate(zip(col["lists"], single)) if x != y)
-            v.append((f"{tag}:value:{op}" + ("" if len(ops) == 1 else ":multi-invocation"),
-                      f"invocations {ops}: {name} for key {case['keys'][j]} differs from the single-query {op}: {col['lists'][j]} vs {single[j]}"))
+            how = {"via": _via(case), "n": case.get("n"), "pipe_n": case.get("pipe_n")}
+            how.update({"n_kw": bool(case.get("n_kw"))} if _via(case) == "helper" else {"n_given": case.get("n_given", True), "cands": case.get("cands")})
+            v.append((f"{tag}:value:{op}" + ("" if len(ops) == 1 else ":multi-invocation") + _param_tag(case, op),
+                      f"invocations {ops} ({how}): {name} for key {case['keys'][j]} differs from the single-query {op} called with the same parameters: "
+                      f"{col['lists'][j]} vs {single[j]}"))
     return v
 
 
@@ -923,6 +994,19 @@ def counters(case, obs):
     else:
         yield f"batch:n_jobs={case['n_jobs']}"
         yield "batch:ops=" + "+".join(_ops(case))
+        yield "batch:via=" + _via(case)
+        if any(_oname(case, o) != ONAME[o] for o in _ops(case)):
+            yield "batch:output-renamed"
+        if "recommend" in _ops(case):
+            n = case.get("n")
+            yield "batch:n=" + ("absent" if (_via(case) == "runner" and not case.get("n_given", True)) else "None" if n is None else "0" if n == 0 else "negative" if n < 0
+                                else ">catalogue" if n >= 50 else "1" if n == 1 else "small")
+            yield "batch:pipeline-default-n=" + str(case.get("pipe_n"))
+            if _via(case) == "runner" and case.get("cands") is not None:
+                yield "batch:candidates=" + ("none" if not case["cands"] else "given")
+            lens = {len(r["ids"]) for r in obs["single"]["recommendations"] if r is not None and "ids" in r}
+            if 0 in lens:
+                yield "batch:recommend-empty-list"
         yield "batch:form=" + case["form"] + "/" + "+".join(case["key_fields"])
         yield "batch:keys=" + str(min(len(case["keys"]), 5))
         yield "batch:result=" + (obs["error"] or "ok")
